@@ -121,27 +121,27 @@ theorem C11_is_helper_answers_current (attr : Name) (ov auto : Bool) (ops : List
 attributes and of the event names: decidable on the final namespace) -/
 def IsClean (o : Obj) : Prop := ∀ n b, sIs <+: n → o.getattr n = some b → ∃ s, b = .isState s
 
-/-- **C11, exactly one.** No `model_override`, no event ever removed that is named like an `is_`
-helper / `trigger` or like an attribute a model defined itself (the exclusion of finding
-F-C11-remove-transition-delattr), `is_`-names used for nothing else: then at every point of every
+/-- **C11, exactly one.** No `model_override`; name hygiene: no event ever removed that is named like an `is_`
+helper / `trigger` (`RemHyg`: `_remove_trigger_from_model` deletes whatever partial of the machine sits
+under the removed event's name), `is_`-names used for nothing else (`IsClean`): then at every point of every
 history every registered state has its helper on every model, and the states whose helper answers
 True are exactly `[current state]`. -/
 theorem C11_exactly_one_is (attr : Name) (auto : Bool) (ops : List Op) (ha : AttrOK attr)
-    (hf : OpsFresh ops) (hr : FOps ops ops) (m : Nat) (o : Obj) (hmo : (m, o) ∈ (Reach attr false auto ops).objs)
+    (hf : OpsFresh ops) (hr : RemHyg ops) (m : Nat) (o : Obj) (hmo : (m, o) ∈ (Reach attr false auto ops).objs)
     (hc : IsClean o) :
     ∃ cur, (Reach attr false auto ops).stateOf m = some cur ∧
       (∀ s ∈ (Reach attr false auto ops).states, o.getattr (isName attr s) = some (.isState s)) ∧
       (Reach attr false auto ops).states.filter
         (fun s => callIs (Reach attr false auto ops) m (isName attr s) == .answer true) = [cur] := by
   obtain ⟨cur, hcs, hst, hall⟩ := C11_is_helper_answers_current attr false auto ops ha hf m o hmo
-  have hfi : FInv (fun m o => Op.addModel m o ∈ ops) (Reach attr false auto ops) :=
-    FInv.run ops ops _ rfl (by intro m o h; cases h) hr
+  have hfi : FInv (fun m o => Op.addModel m o ∈ ops) True (Reach attr false auto ops) :=
+    FInv.run ops ops _ rfl (by intro m o h; cases h) (fun _ => hr) (fun _ h => h)
   have hi := reach_inv attr false auto ops ha hf
   have hattr := reach_attr attr false auto ops
   generalize Reach attr false auto ops = hm at *
   have hbound : ∀ s ∈ hm.states, o.getattr (isName attr s) = some (.isState s) := by
     intro s hs
-    have hb := (hfi m o hmo).isB s hs
+    have hb := (hfi m o hmo).isB trivial s hs
     rw [hattr] at hb
     unfold Bnd Obj.unbound at hb
     cases hg : o.getattr (isName attr s) with
@@ -195,47 +195,44 @@ theorem C11_event_method_eq_trigger (attr : Name) (ov auto : Bool) (ops : List O
   obtain ⟨rfl, _, h3⟩ := h1 e e' he
   rw [h3, h2 ht]
 
-/-- full strength (FALSE on the pinned tree, see `C11_event_method_exists_counterexample`): without
-`model_override` every event of the machine is callable on every registered model -/
-def C11_event_method_exists : Prop :=
-  ∀ (attr : Name) (auto : Bool) (ops : List Op), AttrOK attr → OpsFresh ops →
-    ∀ m o, (m, o) ∈ (Reach attr false auto ops).objs → ∀ e ∈ keys (Reach attr false auto ops).events, Bnd o e
-
-/-- **C11, every event has its method** (and `trigger` is there), outside finding
-F-C11-remove-transition-delattr: no removed event is named like an attribute a model defined. -/
-theorem C11_event_method_exists_partial (attr : Name) (auto : Bool) (ops : List Op) (hr : FOps ops ops)
+/-- **C11, every event has its method** — full strength, no hypothesis on the history: without
+`model_override`, at every point of every history every event of the machine is callable on every
+registered model (the machine's method, or the attribute of that name the model defined itself). -/
+theorem C11_event_method_exists (attr : Name) (auto : Bool) (ops : List Op)
     (m : Nat) (o : Obj) (hmo : (m, o) ∈ (Reach attr false auto ops).objs) :
-    (∀ e ∈ keys (Reach attr false auto ops).events, Bnd o e) ∧ Bnd o sTrigger := by
-  have hfi : FInv (fun m o => Op.addModel m o ∈ ops) (Reach attr false auto ops) :=
-    FInv.run ops ops _ rfl (by intro m o h; cases h) hr
-  exact ⟨(hfi m o hmo).evB, (hfi m o hmo).trB⟩
+    ∀ e ∈ keys (Reach attr false auto ops).events, Bnd o e := by
+  have hfi : FInv (fun m o => Op.addModel m o ∈ ops) False (Reach attr false auto ops) :=
+    FInv.run ops ops _ rfl (by intro m o h; cases h) (fun h => h.elim) (fun _ h => h)
+  exact (hfi m o hmo).evB
+
+/-- … and `trigger` itself, when no removed event is named `trigger` / `is_…` (`RemHyg`) -/
+theorem C11_trigger_exists (attr : Name) (auto : Bool) (ops : List Op) (hr : RemHyg ops)
+    (m : Nat) (o : Obj) (hmo : (m, o) ∈ (Reach attr false auto ops).objs) : Bnd o sTrigger := by
+  have hfi : FInv (fun m o => Op.addModel m o ∈ ops) True (Reach attr false auto ops) :=
+    FInv.run ops ops _ rfl (by intro m o h; cases h) (fun _ => hr) (fun _ h => h)
+  exact (hfi m o hmo).trB trivial
 
 /-! ### attributes the model already defines are never overwritten -/
 
-/-- full strength (FALSE on the pinned tree): without `model_override`, whatever the history, every
-registered model still has its class and every non-None attribute it defined itself -/
-def C11_no_overwrite : Prop :=
-  ∀ (attr : Name) (auto : Bool) (ops : List Op), AttrOK attr → OpsFresh ops →
-    ∀ m o, (m, o) ∈ (Reach attr false auto ops).objs → ∃ o0, Op.addModel m o0 ∈ ops ∧ KeptFrom attr o0 o
-
-/-- **C11, no overwrite**, outside finding F-C11-remove-transition-delattr. -/
-theorem C11_no_overwrite_partial (attr : Name) (auto : Bool) (ops : List Op) (hr : FOps ops ops)
+/-- **C11, no overwrite** — full strength, no hypothesis on the history: without `model_override`, whatever
+the history (removals included), every registered model still has its class and every non-None attribute
+it defined itself (other than the state attribute) is the very same object. -/
+theorem C11_no_overwrite (attr : Name) (auto : Bool) (ops : List Op)
     (m : Nat) (o : Obj) (hmo : (m, o) ∈ (Reach attr false auto ops).objs) :
     ∃ o0, Op.addModel m o0 ∈ ops ∧ KeptFrom attr o0 o := by
-  have hfi : FInv (fun m o => Op.addModel m o ∈ ops) (Reach attr false auto ops) :=
-    FInv.run ops ops _ rfl (by intro m o h; cases h) hr
+  have hfi : FInv (fun m o => Op.addModel m o ∈ ops) False (Reach attr false auto ops) :=
+    FInv.run ops ops _ rfl (by intro m o h; cases h) (fun h => h.elim) (fun _ h => h)
   have := (hfi m o hmo).orig
   rwa [reach_attr] at this
 
-/-- **C11, with `model_override` only attributes the model defines are replaced**: whatever the history
-(no removed event named like an attribute some model defines as None), a registered model still has its
-class, and every name it did not define (missing, or None) is still undefined — the machine bound
-nothing there. -/
-theorem C11_override_only_replaces (attr : Name) (auto : Bool) (ops : List Op) (hr : TOps ops ops)
+/-- **C11, with `model_override` only attributes the model defines are replaced** — every history: a
+registered model still has its class, and every name it did not define (missing, or None) is still
+undefined — the machine bound nothing there. -/
+theorem C11_override_only_replaces (attr : Name) (auto : Bool) (ops : List Op)
     (m : Nat) (o : Obj) (hmo : (m, o) ∈ (Reach attr true auto ops).objs) :
     ∃ o0, Op.addModel m o0 ∈ ops ∧ o.cls = o0.cls ∧ ∀ n, n ≠ attr → o0.unbound n = true → o.unbound n = true := by
   have hti : TInv (fun m o => Op.addModel m o ∈ ops) (Reach attr true auto ops) :=
-    TInv.run ops ops _ rfl (by intro m o h; cases h) hr
+    TInv.run ops ops _ rfl (by intro m o h; cases h) (fun _ h => h)
   obtain ⟨o0, hp, hk⟩ := hti m o hmo
   rw [reach_attr] at hk
   exact ⟨o0, hp, hk.cls, hk.unb⟩
@@ -252,38 +249,25 @@ theorem C11_checked_assignment (ov : Bool) (o : Obj) (n : Name) (b : Binding) :
   · intro h1 h2; subst h1; simp [checkedAssign, h2]
   · intro h1 h2; subst h1; rw [getattr_checkedAssign_self]; simp [h2]
 
-/-- the witness of finding F-C11-remove-transition-delattr: a model with its own instance attribute
+/-- regression (former finding F-C11-remove-transition-delattr): a model with its own instance attribute
 `go` (character codes 103 111), a machine with an event `go`; removing the event's only transition
-deletes the model's attribute -/
+leaves the model's attribute alone -/
 def exRemoveOps : List Op :=
   [.setInitial [65], .addTransition [103, 111] (.one [65]) (.to [65]) true,
    .addModel 0 { inst := [([103, 111], .user 1)] }, .removeTransition [103, 111] none none]
 
-theorem C11_no_overwrite_counterexample : ¬ C11_no_overwrite := by
-  intro h
-  have hA : AttrOK sState := ⟨by decide, by decide⟩
-  have hF : OpsFresh exRemoveOps := opsFresh_of_B (by decide)
-  obtain ⟨o0, hmem, hk⟩ := h sState true exRemoveOps hA hF 0 ((Reach sState false true exRemoveOps).objs.head!).2 (by decide)
-  simp only [exRemoveOps, List.mem_cons, List.not_mem_nil, or_false] at hmem
-  rcases hmem with hmem | hmem | hmem | hmem <;> try cases hmem
-  have := hk.user [103, 111] 1 (by decide) (by decide)
-  revert this
-  decide
+example : ((Reach sState false true exRemoveOps).objs.map fun p => p.2.getattr [103, 111]) = [some (.user 1)] ∧
+    (Reach sState false true exRemoveOps).events.map (·.1) = [toName sState [65]] := by decide
 
-/-- the same defect seen from the event side: two models, the second defines `go` as a class attribute;
-`remove_transition` deletes the first model's event method, raises on the second, and the event stays -/
+/-- … two models, the second defines `go` as a class attribute: the removal succeeds, the first model loses
+the machine's method, the second keeps its own attribute, the event is gone -/
 def exRemoveOps2 : List Op :=
   [.setInitial [65], .addTransition [103, 111] (.one [65]) (.to [65]) true, .addTransition [103, 111] (.one [66]) (.to [65]) true,
    .addModel 0 {}, .addModel 1 { cls := [([103, 111], .user 1)] }, .removeTransition [103, 111] none none]
 
-theorem C11_event_method_exists_counterexample : ¬ C11_event_method_exists := by
-  intro h
-  have hA : AttrOK sState := ⟨by decide, by decide⟩
-  have hF : OpsFresh exRemoveOps2 := opsFresh_of_B (by decide)
-  have := h sState true exRemoveOps2 hA hF 0 ((Reach sState false true exRemoveOps2).objs.head!).2 (by decide) [103, 111] (by decide)
-  simp only [Bnd] at this
-  revert this
-  decide
+example : (applyOp (Reach sState false true exRemoveOps2.dropLast) (.removeTransition [103, 111] none none)).2 = none ∧
+    ((Reach sState false true exRemoveOps2).objs.map fun p => p.2.getattr [103, 111]) = [none, some (.user 1)] ∧
+    kget [103, 111] (Reach sState false true exRemoveOps2).events = none := by decide
 
 /-! ### `to_<state>()` exists for every state iff auto transitions are enabled, and ends in that state -/
 
@@ -294,7 +278,7 @@ theorem reach_auto (attr : Name) (ov auto : Bool) (ops : List Op) : (Reach attr 
 name events `to_…`.  Without auto transitions the machine has no event named `to_…` at all.  With
 auto transitions every registered state `d` has its event `to_<d>` (`to_<attr>_<d>` for a custom
 `model_attribute`), and from whatever registered state a model is in, firing it returns True and
-leaves the model in `d`.  (That the event's method is on the model: `C11_event_method_exists_partial`.) -/
+leaves the model in `d`.  (That the event's method is on the model: `C11_event_method_exists`.) -/
 theorem C11_to_iff_auto (attr : Name) (ov auto : Bool) (ops : List Op) (ha : AttrOK attr) (hf : OpsFresh ops)
     (hu : UserEvents ops) :
     (auto = false → ∀ e ∈ keys (Reach attr ov auto ops).events, ¬ sTo <+: e) ∧
@@ -630,81 +614,41 @@ theorem C11_is_state_nested (active : List Path) (hne : ∀ a ∈ active, a ≠ 
 
 /-! ### hierarchical machines: `get_triggers` -/
 
-/-- full strength (FALSE on the pinned tree, `C11_get_triggers_nested_counterexample`):
-`get_triggers(state)` lists exactly the events that are offered a transition when the model is in
-that state, i.e. declared — in the root scope or in the scope of an ancestor — on the state or one of
-its ancestors -/
-def C11_get_triggers_nested : Prop :=
-  ∀ (h : HSM), h.ScopesNodup → ∀ (p : Path), PathStates h [] p → ∀ e, (e ∈ getTriggersH h p ↔ firesIn h [] p e = true)
-
-/-- **C11, nested get_triggers never lists an event that does not fire** (every machine, every state). -/
-theorem C11_get_triggers_nested_sound (h : HSM) (hn : h.ScopesNodup) (p : Path) (e : Name)
-    (hm : e ∈ getTriggersH h p) : firesIn h [] p e = true := by
-  unfold getTriggersH at hm
-  rcases List.mem_append.mp hm with h1 | h1
-  · cases p with
-    | nil => cases h1
-    | cons x tl =>
-      cases tl with
-      | nil => cases h1
-      | cons y tl' =>
-        have := nestedTriggers_sound h hn e (y :: tl') [x] h1
-        unfold firesIn
-        simp only [Bool.or_eq_true, Bool.and_eq_true]
-        exact Or.inr ⟨by simp, by simpa using this⟩
-  · obtain ⟨q, hq, he⟩ := List.mem_flatMap.mp h1
-    have hd := (mem_scopeTriggers (hn [])).mp he
-    cases p with
-    | nil => cases hq
-    | cons x tl =>
-      unfold firesIn
-      simp only [Bool.or_eq_true, List.any_eq_true]
-      exact Or.inl ⟨q, hq, hd⟩
-
-/-- **C11, nested get_triggers is exact outside finding F-C11-nested-get-triggers**: when no scope
-below the root declares an event on a proper ancestor (inside that scope) of the queried state. -/
-theorem C11_get_triggers_nested_partial (h : HSM) (hn : h.ScopesNodup) (p : Path) (hp : PathStates h [] p)
-    (hx : localAncestorDecl h [] p = false) (e : Name) :
+/-- **C11, nested get_triggers is exact** — full strength: for every hierarchical machine (scopes are
+dicts: unique event keys) and every registered state (`PathStates`: the state and its ancestors are
+registered — for anything else the code raises KeyError), `get_triggers(state)` lists exactly the events
+that are offered a transition when the model is in that state, i.e. declared — in the root scope or in
+the scope of an ancestor — on the state or one of its ancestors. -/
+theorem C11_get_triggers_nested (h : HSM) (hn : h.ScopesNodup) (p : Path) (hp : PathStates h [] p) (e : Name) :
     e ∈ getTriggersH h p ↔ firesIn h [] p e = true := by
-  refine ⟨C11_get_triggers_nested_sound h hn p e, ?_⟩
-  intro hf
   cases p with
-  | nil => simp [firesIn] at hf
+  | nil => simp [getTriggersH, firesIn, prefixesDesc]
   | cons x tl =>
-    unfold firesIn at hf
-    unfold localAncestorDecl at hx
-    simp only [Bool.or_eq_true, Bool.and_eq_true, List.any_eq_true] at hf
-    unfold getTriggersH
-    rcases hf with ⟨q, hq, hd⟩ | ⟨htl, hsub⟩
-    · exact List.mem_append_right _ (List.mem_flatMap.mpr ⟨q, hq, (mem_scopeTriggers (hn [])).mpr hd⟩)
-    · apply List.mem_append_left
-      cases tl with
-      | nil => simp at htl
-      | cons y tl' =>
-        simp only [Bool.or_eq_false_iff, Bool.and_eq_false_iff] at hx
-        have hx' : localAncestorDecl h [x] (y :: tl') = false := by
-          rcases hx.2 with h1 | h1
-          · simp at h1
-          · simpa using h1
-        exact nestedTriggers_complete h hn e (y :: tl') [x] (by simp) hx' (by simpa using hp.2) (by simpa using hsub)
+    unfold getTriggersH firesIn
+    have hflat : e ∈ (prefixesDesc (x :: tl)).flatMap (scopeTriggers (h.scopeEvents [])) ↔
+        (prefixesDesc (x :: tl)).any (declared (h.scopeEvents []) e) = true := by
+      simp only [List.mem_flatMap, List.any_eq_true]
+      constructor
+      · rintro ⟨q, hq, he⟩; exact ⟨q, hq, (mem_scopeTriggers (hn [])).mp he⟩
+      · rintro ⟨q, hq, he⟩; exact ⟨q, hq, (mem_scopeTriggers (hn [])).mpr he⟩
+    rw [List.mem_append, hflat, Bool.or_eq_true, Bool.and_eq_true]
+    cases tl with
+    | nil => simp
+    | cons y tl' =>
+      have := scopedTriggers_iff h hn e (y :: tl') [x] (by simpa using hp.2)
+      simp only [List.nil_append, ne_eq, reduceCtorEq, not_false_eq_true, decide_true, true_and]
+      rw [this]
+      exact Or.comm
 
-/-- the witness of finding F-C11-nested-get-triggers (DESIGN.md section 6, item 20): states `P`, `P_a`, `P_a_1`
+/-- regression (former finding F-C11-nested-get-triggers, DESIGN.md section 6 item 20): states `P`, `P_a`, `P_a_1`
 (character codes 80 / 97 / 49), the event `mid` (109 105 100) declared in the scope of `P` on the
-source `a`; it fires from `P_a_1` but `get_triggers('P_a_1')` does not list it -/
+source `a`: it fires from `P_a_1` and `get_triggers('P_a_1')` lists it -/
 def exNested : HSM :=
   { states := [[[80]], [[80], [97]], [[80], [97], [49]]],
     scopes := [([[80]], [([109, 105, 100], [[[97]]])])] }
 
-theorem C11_get_triggers_nested_counterexample : ¬ C11_get_triggers_nested := by
-  intro h
-  have hn : exNested.ScopesNodup := by
-    intro pre
-    unfold HSM.scopeEvents exNested
-    simp only [kget]
-    split <;> simp [keys]
-  have := (h exNested hn [[80], [97], [49]] (by simp [PathStates, exNested]) [109, 105, 100]).mpr (by decide +kernel)
-  revert this
-  decide +kernel
+example : getTriggersH exNested [[80], [97], [49]] = [[109, 105, 100]] ∧
+    firesIn exNested [] [[80], [97], [49]] [109, 105, 100] = true := by decide +kernel
 
 /-! ### hierarchical machines: `get_transitions` -/
 
@@ -713,163 +657,238 @@ def allT (h : HT) : List FoundT :=
   h.tables.flatMap fun sc => sc.2.flatMap fun ev => ev.2.map fun t =>
     ({ scope := sc.1, event := ev.1, source := t.1, dest := t.2 } : FoundT)
 
-/-- full strength (FALSE on the pinned tree, `C11_get_transitions_nested_counterexample`): everything
-`get_transitions(trigger, source, dest)` returns matches the selectors by its global names -/
-def C11_get_transitions_nested : Prop :=
-  ∀ (h : HT) (trigger : Option Name) (src dst : Path) (f : FoundT),
-    f ∈ getTransitionsH h trigger src dst → f.matchesH trigger src dst = true
+def trigOK (trig : Option Name) (f : FoundT) : Prop :=
+  match trig with
+  | some e => f.event = e
+  | none => True
 
-/-- no transition is declared in the scope of a nested state (the exclusion of finding
-F-C11-nested-get-transitions-local) -/
-def HT.NoLocal (h : HT) : Prop := ∀ pre, pre ≠ [] → h.table pre = []
-
-theorem flatT_nil (h : HT) (pre : Path) (trigger : Option Name) (src dst : Path) (ht : h.table pre = []) :
-    flatT h pre trigger src dst = [] := by
-  unfold flatT
-  rw [ht]
-  cases trigger <;> simp [kget]
-
-theorem nestedT_nil (h : HT) (hl : h.NoLocal) : ∀ (n : Nat) (pre : Path) (trigger : Option Name) (src dst : Path),
-    pre ≠ [] → nestedT h n pre trigger src dst = []
-  | 0, _, _, _, _, _ => rfl
-  | n + 1, pre, trigger, src, dst, hp => by
-    have hf := fun s d => flatT_nil h pre trigger s d (hl pre hp)
-    have ih := fun x s d => nestedT_nil h hl n (pre ++ [x]) trigger s d (by simp)
-    unfold nestedT
+/-- soundness of the recursion: what `get_nested_transitions` finds in the scope `pre` or below is declared in
+a scope `pre ++ u` and its names, prefixed with `u`, are the requested (remaining) source / destination -/
+theorem nestedT_sound (h : HT) : ∀ (n : Nat) (pre : Path) (trig : Option Name) (src dst : Path) (f : FoundT),
+    f ∈ nestedT h n pre trig src dst →
+    trigOK trig f ∧
+    ∃ u, f.scope = pre ++ u ∧ (src = [] ∨ u ++ f.source = src) ∧
+      (dst = [] ∨ ∃ d, f.dest = some d ∧ u ++ d = dst)
+  | 0, _, _, _, _, _, hf => by cases hf
+  | n + 1, pre, trig, src, dst, f, hf => by
+    have hflat : ∀ s d, f ∈ flatT h pre trig s d →
+        trigOK trig f ∧
+        f.scope = pre ∧ (s = [] ∨ f.source = s) ∧ (d = [] ∨ f.dest = some d) := by
+      intro s d hm
+      unfold flatT at hm
+      simp only [List.mem_filter, List.mem_flatMap, List.mem_map, Bool.and_eq_true, Bool.or_eq_true,
+        decide_eq_true_eq, beq_iff_eq] at hm
+      obtain ⟨⟨ev, hev, t, _, rfl⟩, hs, hd⟩ := hm
+      refine ⟨?_, rfl, hs, hd⟩
+      unfold trigOK
+      cases trig with
+      | none => trivial
+      | some e =>
+        simp only at hev ⊢
+        cases hk : kget e (h.table pre) with
+        | none => simp [hk] at hev
+        | some ts => simp [hk] at hev; rw [hev]
+    have lift : ∀ (x : Name) (s d : Path), f ∈ nestedT h n (pre ++ [x]) trig s d →
+        trigOK trig f ∧
+        ∃ u, f.scope = pre ++ u ∧ (s = [] ∨ u ++ f.source = x :: s) ∧ (d = [] ∨ ∃ d', f.dest = some d' ∧ u ++ d' = x :: d) := by
+      intro x s d hm
+      obtain ⟨ht, u, hu, hs, hd⟩ := nestedT_sound h n (pre ++ [x]) trig s d f hm
+      refine ⟨ht, x :: u, by rw [hu]; simp, ?_, ?_⟩
+      · rcases hs with h1 | h1
+        · exact Or.inl h1
+        · exact Or.inr (by simp [h1])
+      · rcases hd with h1 | ⟨d', h1, h2⟩
+        · exact Or.inl h1
+        · exact Or.inr ⟨d', h1, by simp [h2]⟩
+    unfold nestedT at hf
     cases src with
     | nil =>
       cases dst with
-      | nil => simp [hf, ih]
-      | cons d0 dr => simp only [hf, List.nil_append]; split <;> simp [ih]
+      | nil =>
+        simp only at hf
+        rcases List.mem_append.mp hf with h1 | h1
+        · obtain ⟨ht, hs, _, _⟩ := hflat [] [] h1
+          exact ⟨ht, [], by simp [hs], Or.inl rfl, Or.inl rfl⟩
+        · obtain ⟨x, _, hx⟩ := List.mem_flatMap.mp h1
+          obtain ⟨ht, u, hu, _, _⟩ := lift x [] [] hx
+          exact ⟨ht, u, hu, Or.inl rfl, Or.inl rfl⟩
+      | cons d0 dr =>
+        simp only at hf
+        rcases List.mem_append.mp hf with h1 | h1
+        · obtain ⟨ht, hs, _, hd⟩ := hflat [] (d0 :: dr) h1
+          refine ⟨ht, [], by simp [hs], Or.inl rfl, Or.inr ?_⟩
+          rcases hd with hd | hd
+          · cases hd
+          · exact ⟨d0 :: dr, hd, rfl⟩
+        · by_cases hc : dr ≠ [] ∧ d0 ∈ h.children pre
+          · rw [if_pos hc] at h1
+            obtain ⟨ht, u, hu, _, hd⟩ := lift d0 [] dr h1
+            refine ⟨ht, u, hu, Or.inl rfl, Or.inr ?_⟩
+            rcases hd with hd | hd
+            · exact absurd hd hc.1
+            · exact hd
+          · rw [if_neg hc] at h1; cases h1
     | cons s0 sr =>
       cases dst with
-      | nil => simp only [hf, List.nil_append]; split <;> simp [ih]
-      | cons d0 dr => simp only [hf, List.nil_append]; split <;> simp [ih]
+      | nil =>
+        simp only at hf
+        rcases List.mem_append.mp hf with h1 | h1
+        · obtain ⟨ht, hs, hsrc, _⟩ := hflat (s0 :: sr) [] h1
+          refine ⟨ht, [], by simp [hs], Or.inr ?_, Or.inl rfl⟩
+          rcases hsrc with hsrc | hsrc
+          · cases hsrc
+          · simpa using hsrc
+        · by_cases hc : sr ≠ []
+          · rw [if_pos hc] at h1
+            obtain ⟨ht, u, hu, hs, _⟩ := lift s0 sr [] h1
+            refine ⟨ht, u, hu, Or.inr ?_, Or.inl rfl⟩
+            rcases hs with hs | hs
+            · exact absurd hs hc
+            · exact hs
+          · rw [if_neg hc] at h1; cases h1
+      | cons d0 dr =>
+        simp only at hf
+        rcases List.mem_append.mp hf with h1 | h1
+        · obtain ⟨ht, hs, hsrc, hd⟩ := hflat (s0 :: sr) (d0 :: dr) h1
+          refine ⟨ht, [], by simp [hs], Or.inr ?_, Or.inr ?_⟩
+          · rcases hsrc with hsrc | hsrc
+            · cases hsrc
+            · simpa using hsrc
+          · rcases hd with hd | hd
+            · cases hd
+            · exact ⟨d0 :: dr, hd, rfl⟩
+        · by_cases hc : sr ≠ [] ∧ dr ≠ [] ∧ s0 = d0
+          · rw [if_pos hc] at h1
+            obtain ⟨ht, u, hu, hs, hd⟩ := lift s0 sr dr h1
+            refine ⟨ht, u, hu, Or.inr ?_, Or.inr ?_⟩
+            · rcases hs with hs | hs
+              · exact absurd hs hc.1
+              · exact hs
+            · rcases hd with hd | ⟨d', hd1, hd2⟩
+              · exact absurd hd hc.2.1
+              · exact ⟨d', hd1, by rw [hd2, hc.2.2]⟩
+          · rw [if_neg hc] at h1; cases h1
 
-/-- **C11, nested get_transitions is exact when all transitions are declared in the root scope**
-(outside finding F-C11-nested-get-transitions-local): the result is the root table filtered by the
-selectors (`flatT`, the flat `Machine.get_transitions` of `C11_get_transitions_exact`), and everything
-in it matches the selectors by its global names. -/
-theorem C11_get_transitions_nested_partial (h : HT) (hl : h.NoLocal) (trigger : Option Name) (src dst : Path) :
-    getTransitionsH h trigger src dst = flatT h [] trigger src dst ∧
-    ∀ f ∈ getTransitionsH h trigger src dst, f.matchesH trigger src dst = true := by
-  have h1 : getTransitionsH h trigger src dst = flatT h [] trigger src dst := by
-    unfold getTransitionsH nestedT
-    have ih : ∀ (x : Name) (s d : Path), nestedT h h.states.length [x] trigger s d = [] :=
-      fun x s d => nestedT_nil h hl h.states.length [x] trigger s d (by simp)
-    cases src with
-    | nil =>
-      cases dst with
-      | nil => simp [ih]
-      | cons d0 dr => simp only; split <;> simp [ih]
-    | cons s0 sr =>
-      cases dst with
-      | nil => simp only; split <;> simp [ih]
-      | cons d0 dr => simp only; split <;> simp [ih]
-  refine ⟨h1, ?_⟩
-  rw [h1]
-  intro f hf
-  unfold flatT at hf
-  simp only [List.mem_filter, List.mem_flatMap, List.mem_map] at hf
-  obtain ⟨⟨ev, hev, t, _, rfl⟩, hm⟩ := hf
-  simp only [Bool.and_eq_true, Bool.or_eq_true, decide_eq_true_eq, beq_iff_eq] at hm
+/-- **C11, nested get_transitions returns only matching transitions** — full strength, no hypothesis: for
+every hierarchical machine and all three selectors, everything `get_transitions(trigger, source, dest)`
+returns matches the selectors by its GLOBAL names (scope of declaration + local name). -/
+theorem C11_get_transitions_nested (h : HT) (trigger : Option Name) (src dst : Path) (f : FoundT)
+    (hf : f ∈ getTransitionsH h trigger src dst) : f.matchesH trigger src dst = true := by
+  obtain ⟨ht, u, hu, hs, hd⟩ := nestedT_sound h _ [] trigger src dst f hf
+  simp only [List.nil_append] at hu
   unfold FoundT.matchesH
-  simp only [List.nil_append, Bool.and_eq_true, Bool.or_eq_true, decide_eq_true_eq, beq_iff_eq]
-  refine ⟨⟨?_, hm.1⟩, ?_⟩
-  · cases trigger with
+  simp only [Bool.and_eq_true, Bool.or_eq_true, decide_eq_true_eq, beq_iff_eq]
+  refine ⟨⟨?_, ?_⟩, ?_⟩
+  · unfold trigOK at ht
+    cases trigger with
     | none => rfl
-    | some e =>
-      simp only at hev ⊢
-      cases hk : kget e (h.table []) with
-      | none => simp [hk] at hev
-      | some ts => simp [hk] at hev; rw [hev]; simp
-  · rcases hm.2 with h2 | h2
-    · exact Or.inl h2
-    · right; rw [h2]; simp
+    | some e => simpa using ht
+  · rcases hs with hs | hs
+    · exact Or.inl hs
+    · exact Or.inr (by rw [hu]; exact hs)
+  · rcases hd with hd | ⟨d, hd1, hd2⟩
+    · exact Or.inl hd
+    · right; rw [hd1, hu]; simpa using hd2
 
-/-- the witness: top-level states `A`, `B` (65, 66) with children `1`, `2` (49, 50); `loc` (108 111 99)
-declared in the scope of `A` from `1` to `2` — i.e. `A_1 → A_2` — is returned for `dest='B_2'` -/
+/-- regression (former finding F-C11-nested-get-transitions-local): top-level states `A`, `B` (65, 66) with
+children `1`, `2` (49, 50); `loc` (108 111 99) declared in the scope of `A` from `1` to `2` — i.e. `A_1 → A_2` — is
+returned for `dest='A_2'` and for no selector in `B` -/
 def exHT : HT :=
   { states := [[[65]], [[65], [49]], [[65], [50]], [[66]], [[66], [49]], [[66], [50]]],
     tables := [([[65]], [([108, 111, 99], [([[49]], some [[50]])])])] }
 
-theorem C11_get_transitions_nested_counterexample : ¬ C11_get_transitions_nested := by
-  intro h
-  have := h exHT none [] [[66], [50]] { scope := [[65]], event := [108, 111, 99], source := [[49]], dest := some [[50]] }
-    (by decide +kernel)
-  revert this
-  decide +kernel
+example : getTransitionsH exHT none [] [[66], [50]] = [] ∧ getTransitionsH exHT none [[65], [49]] [[66], [50]] = [] ∧
+    (getTransitionsH exHT none [] [[65], [50]]).length = 1 ∧ (getTransitionsH exHT none [[65], [49]] [[65], [50]]).length = 1 ∧
+    (getTransitionsH exHT none [] []).length = 1 := by decide +kernel
 
 /-! ### hierarchical machines with a custom separator: binding the FunctionWrapper helpers -/
 
-/-- the code binds a parent's wrapper before its children's entries -/
-def parentFirst (seen : List Name) : List WStep → Bool
-  | [] => true
-  | st :: r =>
-    (st.restEmpty || !st.isStep || seen.contains st.name) &&
-      parentFirst (if st.restEmpty then st.name :: seen else seen) r
-
-/-- full strength (FALSE on the pinned tree): binding the wrapper helpers of `add_model` never raises -/
-def C11_wrapper_binding : Prop :=
-  ∀ (override : Bool) (ns : List (Name × TopAttr)) (steps : List WStep), parentFirst [] steps = true →
-    wrapOutcome override ns steps = none
-
-def WGood (ns : List (Name × TopAttr)) (seen : List Name) : Prop :=
-  (∀ n, (kget n ns).getD .missing = .missing ∨ (kget n ns).getD .missing = .wrapper) ∧
-  ∀ n ∈ seen, kget n ns = some .wrapper
-
-theorem runWrap_ok : ∀ (steps : List WStep) (ns : List (Name × TopAttr)) (seen : List Name), WGood ns seen →
-    parentFirst seen steps = true → ∃ ns', runWrap false ns steps = .ok ns'
-  | [], ns, _, _, _ => ⟨ns, rfl⟩
-  | st :: r, ns, seen, hg, hp => by
-    unfold parentFirst at hp
-    simp only [Bool.and_eq_true, Bool.or_eq_true, Bool.not_eq_true'] at hp
+/-- the attribute under one top-level helper name after the steps: only the steps for that name matter -/
+theorem runWrap_attr (override : Bool) (n : Name) : ∀ (steps : List WStep) (ns : List (Name × TopAttr)),
+    (kget n (runWrap override ns steps)).getD .missing =
+      (steps.filter (fun st => st.name == n)).foldl (wrapStep override) ((kget n ns).getD .missing)
+  | [], _ => rfl
+  | st :: r, ns => by
     unfold runWrap
-    have hstep : wrapStep false ((kget st.name ns).getD .missing) st = .ok .wrapper := by
-      rcases hg.1 st.name with h1 | h1
-      · rw [h1]
-        unfold wrapStep
-        rcases hp.1 with (h2 | h2) | h2
-        · simp [h2]
-        · simp [h2]
-        · have := hg.2 st.name (by simpa using h2)
-          rw [this] at h1; cases h1
-      · rw [h1]; rfl
-    rw [hstep]
-    refine runWrap_ok r _ _ ?_ hp.2
-    refine ⟨?_, ?_⟩
-    · intro n
-      by_cases hn : n = st.name
-      · subst hn; right; simp [kget_kset_self]
-      · rw [kget_kset_ne _ _ _ _ hn]; exact hg.1 n
-    · intro n hn
-      by_cases hns : n = st.name
-      · subst hns; exact kget_kset_self _ _ _
-      · rw [kget_kset_ne _ _ _ _ hns]
-        apply hg.2
-        split at hn
-        · rcases List.mem_cons.mp hn with h | h
-          · exact absurd h hns
-          · exact h
-        · exact hn
+    rw [runWrap_attr override n r]
+    by_cases hn : st.name = n
+    · subst hn; simp [kget_kset_self]
+    · have : (st.name == n) = false := by simpa using hn
+      simp [this, kget_kset_ne _ _ _ _ (Ne.symm hn)]
 
-/-- **C11, wrapper binding succeeds** outside finding F-C11-custom-separator-wrapper-clash: no
-`model_override`, and the model has no attribute of its own under a wrapper name. -/
-theorem C11_wrapper_binding_partial (ns : List (Name × TopAttr)) (steps : List WStep)
-    (hn : ∀ n, (kget n ns).getD .missing = .missing ∨ (kget n ns).getD .missing = .wrapper)
-    (hp : parentFirst [] steps = true) : wrapOutcome false ns steps = none := by
-  obtain ⟨ns', h⟩ := runWrap_ok steps ns [] ⟨hn, fun n h => by cases h⟩ hp
-  simp [wrapOutcome, h]
+theorem wrapFold_wrapper (ov : Bool) : ∀ (l : List WStep), l.foldl (wrapStep ov) .wrapper = .wrapper
+  | [] => rfl
+  | _ :: r => by simp [List.foldl, wrapStep, wrapFold_wrapper ov r]
 
-/-- witnesses: a model with its own `is_A` (top-level state `A`); `model_override` with a nested state `A.1` -/
-theorem C11_wrapper_binding_counterexample : ¬ C11_wrapper_binding := by
-  intro h
-  have h1 := h false [([105, 115, 95, 65], .user)] [{ name := [105, 115, 95, 65], isStep := true, restEmpty := true }] (by decide)
-  revert h1
-  decide
+theorem wrapFold_user_false : ∀ (l : List WStep), l.foldl (wrapStep false) .user = .user
+  | [] => rfl
+  | st :: r => by
+    have : wrapStep false .user st = .user := by unfold wrapStep; cases st.restEmpty <;> simp
+    simp [List.foldl, this, wrapFold_user_false r]
 
-example : wrapOutcome true [] [{ name := [105, 115, 95, 65], isStep := true, restEmpty := true },
-    { name := [105, 115, 95, 65], isStep := true, restEmpty := false }] = some .assertionError := by decide
+theorem wrapFold_unbound_true (a : TopAttr) (ha : a = .missing ∨ a = .userNone) :
+    ∀ (l : List WStep), l.foldl (wrapStep true) a = a
+  | [] => rfl
+  | st :: r => by
+    have : wrapStep true a st = a := by
+      rcases ha with h | h <;> subst h <;> unfold wrapStep <;> cases st.restEmpty <;> simp
+    simp [List.foldl, this, wrapFold_unbound_true a ha r]
+
+theorem wrapFold_bind (ov : Bool) (a : TopAttr)
+    (ha : (ov = false ∧ (a = .missing ∨ a = .userNone ∨ a = .wrapper)) ∨ (ov = true ∧ (a = .user ∨ a = .wrapper))) :
+    ∀ (l : List WStep), (∃ st ∈ l, st.restEmpty = true) → l.foldl (wrapStep ov) a = .wrapper
+  | [], h => by obtain ⟨_, hm, _⟩ := h; cases hm
+  | st :: r, h => by
+    simp only [List.foldl]
+    cases hr : st.restEmpty with
+    | true =>
+      have : wrapStep ov a st = .wrapper := by
+        rcases ha with ⟨ho, h1 | h1 | h1⟩ | ⟨ho, h1 | h1⟩ <;> subst ho <;> subst h1 <;> simp [wrapStep, hr]
+      rw [this]; exact wrapFold_wrapper ov r
+    | false =>
+      have : wrapStep ov a st = a := by
+        rcases ha with ⟨ho, h1 | h1 | h1⟩ | ⟨ho, h1 | h1⟩ <;> subst ho <;> subst h1 <;> simp [wrapStep, hr]
+      rw [this]
+      apply wrapFold_bind ov a ha r
+      obtain ⟨st', hm, hs⟩ := h
+      rcases List.mem_cons.mp hm with h1 | h1
+      · subst h1; rw [hr] at hs; cases hs
+      · exact ⟨st', h1, hs⟩
+
+/-- **C11, the FunctionWrapper helpers respect the override policy** — full strength (binding is total: it
+cannot raise any more), every model namespace, every sequence of binding steps, every top-level helper
+name `n` (`is_<top>` / `to_<top>`); `a0` / `a1` = what the model has under `n` before / after:
+without `model_override` an attribute of the model stays, and a free name that has a top-level step gets
+its wrapper; with `model_override` a missing (or None) name stays as it is and an attribute of the model
+that has a top-level step is replaced by the wrapper; a wrapper stays a wrapper. -/
+theorem C11_wrapper_binding (override : Bool) (ns : List (Name × TopAttr)) (steps : List WStep) (n : Name) :
+    let a0 := (kget n ns).getD .missing
+    let a1 := (kget n (runWrap override ns steps)).getD .missing
+    (override = false → a0 = .user → a1 = .user) ∧
+    (override = false → (a0 = .missing ∨ a0 = .userNone ∨ a0 = .wrapper) →
+      (∃ st ∈ steps, st.name = n ∧ st.restEmpty = true) → a1 = .wrapper) ∧
+    (override = true → (a0 = .missing ∨ a0 = .userNone) → a1 = a0) ∧
+    (override = true → a0 = .user → (∃ st ∈ steps, st.name = n ∧ st.restEmpty = true) → a1 = .wrapper) ∧
+    (a0 = .wrapper → a1 = .wrapper) := by
+  intro a0 a1
+  have h1 : a1 = (steps.filter (fun st => st.name == n)).foldl (wrapStep override) a0 := runWrap_attr override n steps ns
+  have hex : (∃ st ∈ steps, st.name = n ∧ st.restEmpty = true) →
+      ∃ st ∈ steps.filter (fun st => st.name == n), st.restEmpty = true := by
+    rintro ⟨st, hm, hn, hr⟩
+    exact ⟨st, List.mem_filter.mpr ⟨hm, by simpa using hn⟩, hr⟩
+  refine ⟨?_, ?_, ?_, ?_, ?_⟩
+  · intro ho ha; subst ho; rw [h1, ha]; exact wrapFold_user_false _
+  · intro ho ha he; rw [h1]; exact wrapFold_bind override a0 (Or.inl ⟨ho, ha⟩) _ (hex he)
+  · intro ho ha; subst ho; rw [h1]; exact wrapFold_unbound_true a0 ha _
+  · intro ho ha he; rw [h1]; exact wrapFold_bind override a0 (Or.inr ⟨ho, Or.inl ha⟩) _ (hex he)
+  · intro ha; rw [h1, ha]; exact wrapFold_wrapper override _
+
+/-- regressions (former finding F-C11-custom-separator-wrapper-clash): a model with its own `is_A` keeps it;
+`model_override` with a nested state `A.1` and no attribute of the model binds nothing and does not raise -/
+example : runWrap false [([105, 115, 95, 65], .user)] [{ name := [105, 115, 95, 65], isStep := true, restEmpty := true }] =
+    [([105, 115, 95, 65], .user)] := by decide
+example : runWrap true [] [{ name := [105, 115, 95, 65], isStep := true, restEmpty := true },
+    { name := [105, 115, 95, 65], isStep := true, restEmpty := false }] = [([105, 115, 95, 65], .missing)] := by decide
 
 /-! ### the flat engine with callbacks: the state attribute stays registered (C04) -/
 
@@ -932,13 +951,8 @@ theorem isClean_of_B {o : Obj} (h : isCleanB o = true) : IsClean o := by
 example : AttrOK exAttr := ⟨by decide, by decide⟩
 /-- the second model of the history below carries nothing but `is_` helpers under `is_…` names -/
 example : IsClean ((Reach exAttr false true exOps).objs.getLast!).2 := isClean_of_B (by decide)
-example : TOps exOps exOps := ⟨by
-  intro e src dst hm m o0 ho hu
-  simp only [exOps, List.mem_cons, List.not_mem_nil, or_false] at hm ho
-  rcases hm with hm | hm | hm | hm | hm | hm | hm | hm <;> try cases hm
-  rcases ho with ho | ho | ho | ho | ho | ho | ho | ho <;> cases ho <;> decide, fun _ h => h⟩
 example : OpsFresh exOps := opsFresh_of_B (by decide)
-example : FOps exOps exOps := FOps_of_B (by decide)
+example : RemHyg exOps := RemHyg_of_B (by decide)
 example : UserEvents exOps := UserEvents_of_B (by decide)
 /-- model 0 ends in B; its own `is_mode_A` and `go` are untouched, `is_mode_B` answers True, `to_mode_A` is
 there; model 1 (added last, in A) has every helper -/
@@ -952,11 +966,6 @@ example : (Reach exAttr false true exOps).stateOf 0 = some [66] ∧
 example : ((Reach exAttr true true exOps).objs.map fun p =>
       (p.2.getattr (isName exAttr [65]), p.2.getattr [103, 111], p.2.getattr (isName exAttr [66]), p.2.getattr sTrigger)) =
     [(some (.isState [65]), some (.trigger [103, 111]), none, none), (none, none, none, none)] := by decide
-/-- hierarchical: with `mid` declared in the root scope on `P_a` instead, `get_triggers('P_a_1')` is exact -/
-example : localAncestorDecl { exNested with scopes := [([], [([109, 105, 100], [[[80], [97]]])])] } [] [[80], [97], [49]] = false ∧
-    getTriggersH { exNested with scopes := [([], [([109, 105, 100], [[[80], [97]]])])] } [[80], [97], [49]] = [[109, 105, 100]] := by
-  decide +kernel
-example : localAncestorDecl exNested [] [[80], [97], [49]] = true := by decide +kernel
 /-- nested `is_<state>`: parallel configuration [P_a_1, P_b] -/
 example : (isStateH [[[80], [97], [49]], [[80], [98]]] [[80], [97]] false, isStateH [[[80], [97], [49]], [[80], [98]]] [[80], [97]] true,
     isStateH [[[80], [97], [49]], [[80], [98]]] [[80], [98]] false) = (false, true, true) := by decide +kernel
